@@ -1,6 +1,7 @@
 import MobiusModel.Presence
 import MobiusModel.Generated.Consts
 import MobiusModel.Generated.Concurrency
+import MobiusModel.Generated.Outbox
 /-!
   C13 — Presence converges and user ids address one live user.
 
@@ -197,6 +198,46 @@ theorem generated_client_table_locked :
 /-- The connection entry point defers `Disconnect` (which calls `Delete`): a user leaves the table on
     every exit path. -/
 theorem generated_disconnect_deferred : ("handleNewConnection", "Disconnect") ∈ Generated.entryDefers := by decide
+
+-- ------------------------------------------------------------------ the order inside Disconnect
+
+/-- `Disconnect` removes the user from the table BEFORE it picks the audience of the user-left notice
+    (`NotifyOthers` lists the table): regenerated from source on every run. -/
+theorem generated_disconnect_order :
+    Generated.disconnectCalls = ["ClientMgr.Delete", "cc.NotifyOthers", "Connection.Close"] := by decide
+
+/-- With that order the audience is everybody still connected … -/
+theorem audience_after_delete (r : Registry) (i : Nat) (c : Client) :
+    c ∈ (r.delete i).clients ↔ c ∈ r.clients ∧ c.id ≠ i := by
+  simp [Registry.delete, List.mem_filter]
+
+/-- … and no list fetched from then on contains the leaver: whoever holds a list with the leaver in it fetched
+    it before the removal, was therefore connected at the removal, and is (if still connected) in the audience.
+    So no schedule of logins and fetches between the two halves of `Disconnect` can leave a ghost. -/
+theorem fetch_after_delete_omits_leaver (r : Registry) (i : Nat) :
+    ∀ e ∈ (r.delete i).clients.map entryOf, e.id ≠ i := by
+  intro e he
+  obtain ⟨c, hc, rfl⟩ := List.mem_map.mp he
+  exact ((audience_after_delete r i c).mp hc).2
+
+private def ghostA : Client := ⟨1, 0, [], [], [], [0x61], [0, 1], 0, [], true⟩
+private def ghostX : Client := ⟨2, 1, [], [], [], [0x78], [0, 2], 0, [], true⟩
+private def ghostC : Client := ⟨0, 0, [], [], [], [0x63], [0, 3], 0, [], true⟩
+private def ghostR : Registry := ⟨2, 2, [ghostA, ghostX]⟩
+
+/-- The other order (audience picked first, removal afterwards — seeded change C13c-1) has a schedule that leaves a
+    permanent ghost: C logs in and fetches between the two halves; its list contains the leaver, it is connected
+    afterwards, and it is not in the audience. -/
+theorem notify_before_delete_leaves_ghost :
+    ∃ (r : Registry) (x : Nat) (r1 : Registry) (c : Client),
+      r.Inv ∧ r.add ghostC = some (r1, c) ∧
+      c ∉ r.clients.filter (·.id != x) ∧                       -- audience picked on the old table
+      (∃ e ∈ r1.clients.map entryOf, e.id = x) ∧               -- C's fetched list shows the leaver
+      c ∈ (r1.delete x).clients ∧                              -- C is still connected after the removal
+      ∀ e ∈ (r1.delete x).clients.map entryOf, e.id ≠ x := by  -- while the server's list no longer has it
+  refine ⟨ghostR, 2, ⟨3, 3, [ghostA, ghostX, { ghostC with id := 3, conn := 2 }]⟩, { ghostC with id := 3, conn := 2 },
+    ⟨by unfold SortedIds; decide, by decide, by decide, by decide⟩, by decide +kernel, by decide, by decide, by decide,
+    fetch_after_delete_omits_leaver _ 2⟩
 
 -- ------------------------------------------------------------------ non-vacuity
 
